@@ -96,7 +96,7 @@ class G:
         self.n += 1
         return f"{p}{self.n}"
 
-    def attr(self, rule=False):
+    def attr(self, rule=False, dn=False):
         ctx = self.ctx
         if self.shape.get("concrete"):
             return "caseExactMatch" if rule else self.shape["concrete"][1]
@@ -104,8 +104,8 @@ class G:
         self.first_attr = False
         s = ctx.str(self.name("a"), n, 0x20, 0x7E)
         ctx.assume(relang.member(ctx, s, relang.OID if rule else relang.ATTRDESC))
-        if rule and n == 2:
-            # RFC 4515 cannot express a matching rule spelled "dn" (it is the dnattrs keyword)
+        if rule and n == 2 and not dn:
+            # without the dn keyword RFC 4515 cannot express a matching rule spelled "dn" (it reads as the keyword)
             ctx.assume(ctx.neg(ctx.all(ctx.any(_c(ctx, s, 0) == 100, _c(ctx, s, 0) == 68), ctx.any(_c(ctx, s, 1) == 110, _c(ctx, s, 1) == 78))))
         return s
 
@@ -144,7 +144,7 @@ def build(g, F, spec):
         f = k[4:]
         has_a = "a" in f.replace("dn", "")
         has_r = "r" in f.replace("dn", "")
-        return F.FilterExtensibleMatch(g.attr(rule=True) if has_r else None, g.attr() if has_a else None, g.val(), f.endswith("dn"))
+        return F.FilterExtensibleMatch(g.attr(rule=True, dn=f.endswith("dn")) if has_r else None, g.attr() if has_a else None, g.val(), f.endswith("dn"))
     if k.startswith("sub_"):
         f = k[4:]
         ini = g.val(True) if f.startswith("i") else None
